@@ -6,10 +6,11 @@ THEOREMS = ["c08_self_or_admin", "c08_admin_only", "c08_other_tokens_need_u2f", 
             "c08_rolecert", "c08_ok_authorized", "c08_profile_untouched", "c08_failure_untouched",
             "c08_only_target_changes", "c08_history", "c08_cache", "c08_cache_window",
             "c08_cache_granted_has_source", "c08_login_subject", "c08_case_variant_is_other_user",
-            "c08_roles_admin_justified", "c08_roles_admin_has_source", "c08_roles_never_promoted"]
+            "c08_roles_admin_justified", "c08_roles_admin_has_source", "c08_roles_never_promoted",
+            "c08_authorize_is_gate_extra", "c08_gate_and_authorize", "c08_gate_and_authorize_may_act"]
 
 TRUSTED = [
-    "checkAuth runs in front of the model: the model starts from the authenticated (user, level) of a valid session cookie or a verified keymaster client-certificate chain (Model/Auth.v is the model of checkAuth; lemma authenticate_is_check_auth relates the two)",
+    "checkAuth runs in front of the model: the model starts from the authenticated (user, level) of a valid session cookie or a verified keymaster client-certificate chain (Model/Auth.v is the model of checkAuth, lemma authenticate_is_check_auth relates the two; c08_gate_and_authorize composes the C06 gate model with the handler tests, route by route)",
     "profile storage (SQLite, gob) is a map from user to profile; the harness reads the raw rows of every user before and after each request",
     "cryptographic verification of a submitted U2F registration / TOTP code is an input of the model; the harness produces genuine ones with a software U2F / WebAuthn ('none' attestation) token and the TOTP secret",
     "the group directory is gitdb on local directories (the production user-info backend, configured through the YAML keys) and an unparsable LDAP URL for 'directory does not answer'; a real LDAP server is not exercised",
